@@ -16,7 +16,8 @@ Fixpoint leqb2 {A B} (f : A -> B -> bool) (a : list A) (b : list B) : bool :=
 Record reply := mkReply { rp_code : N; rp_opts : list (N * list bytes); rp_body : bytes }.
 Inductive step :=
 | Exchange (tid : N) (req : packet) (src : N) (rp : reply)
-| Sleep.                                    (* idle for longer than the expiry duration *)
+| Sleep                                     (* idle for longer than the expiry duration *)
+| Nap.                                      (* idle for a third of the mode-2 expiry duration *)
 
 Definition rd_reply : rd reply := fun s =>
   match s with
@@ -31,6 +32,7 @@ Definition rd_step : rd step := fun s =>
                      | Some (p, src :: r1) => match rd_reply r1 with Some (rp, r2) => Some (Exchange tid p src rp, r2) | None => None end
                      | _ => None end
   | 1 :: r => Some (Sleep, r)
+  | 3 :: r => Some (Nap, r)
   | _ => None
   end.
 
@@ -84,7 +86,7 @@ Definition exchange (h : handler) (now : N) (p : packet) (src : N) (rp : reply) 
 
 (* ttl mode 0: one hour, never reached; mode 1: short, Sleep steps exceed it.  Model time: a
    millisecond clock that stands still except for Sleep. *)
-Definition ttl_of (mode : N) : N := if mode =? 0 then 3600000 else 40.
+Definition ttl_of (mode : N) : N := if mode =? 0 then 3600000 else if mode =? 1 then 40 else 300.
 
 (* mode 1: only exchanges immediately after a Sleep are observed (everything else depends on
    the real clock) *)
@@ -92,9 +94,15 @@ Fixpoint run_steps (h : handler) (now : N) (mode : N) (after_sleep : bool) (l : 
   match l with
   | [] => []
   | Sleep :: r => run_steps h (now + 10 * h_ttl h + 1) mode true r
+  | Nap :: r => run_steps h (now + 100) mode after_sleep r
   | Exchange _ p src rp :: r =>
     let '(o, h') := exchange h now p src rp in
-    (if (mode =? 0) || after_sleep then len o :: o else []) ++ run_steps h' now mode false r
+    (if mode =? 2
+     then (* mode 2: only the last exchange is observed, without the number of physical entries (which depends on
+             how long the naps really took) *)
+          (if existsb (fun s => match s with Exchange _ _ _ _ => true | _ => false end) r then []
+           else let o' := removelast o ++ [0] in len o' :: o')
+     else if (mode =? 0) || after_sleep then len o :: o else []) ++ run_steps h' now mode false r
   end.
 
 (* kind 2: an exchange whose application reply is the same as the previous exchange's *)
@@ -111,7 +119,7 @@ Fixpoint rd_steps (k : nat) (prev : reply) (s : list N) : option (list step * li
     | _ =>
       match rd_step s with
       | Some (st, r1) =>
-        let prev' := match st with Exchange _ _ _ rp => rp | Sleep => prev end in
+        let prev' := match st with Exchange _ _ _ rp => rp | _ => prev end in
         match rd_steps k' prev' r1 with Some (l, r2) => Some (st :: l, r2) | None => None end
       | None => None end
     end
@@ -131,9 +139,9 @@ Definition run_case8 (s : list N) : list N :=
 
 (* suite 120 also runs every transfer alone on a fresh handler *)
 Definition tids (l : list step) : list N :=
-  fold_left (fun acc s => match s with Exchange t _ _ _ => if existsb (N.eqb t) acc then acc else acc ++ [t] | Sleep => acc end) l [].
+  fold_left (fun acc s => match s with Exchange t _ _ _ => if existsb (N.eqb t) acc then acc else acc ++ [t] | _ => acc end) l [].
 Definition only (t : N) (l : list step) : list step :=
-  filter (fun s => match s with Exchange t' _ _ _ => t' =? t | Sleep => false end) l.
+  filter (fun s => match s with Exchange t' _ _ _ => t' =? t | _ => false end) l.
 Definition run_case12 (s : list N) : list N :=
   match rd_case8 s with
   | Some (m, mode, l) =>
@@ -212,7 +220,7 @@ Fixpoint rd_obs_list (fuel : nat) (s : list N) : option (list obs) :=
   end.
 
 Definition exchanges (l : list step) : list (N * packet * N * reply) :=
-  flat_map (fun s => match s with Exchange t p src rp => [(t, p, src, rp)] | Sleep => [] end) l.
+  flat_map (fun s => match s with Exchange t p src rp => [(t, p, src, rp)] | _ => [] end) l.
 
 (* ---------- common oracle parts ---------- *)
 Definition block_of (n : N) (p : packet) : option blockv := first_block n p.
@@ -385,6 +393,7 @@ Definition classify90 (s : list N) : N :=
 (* ------------------------------ suite 100 (C10) ------------------------------ *)
 (* every message the handler produces or passes fits the budget; chosen block sizes are powers of two in
    16..1024 and never exceed the client's *)
+Definition overhead (p : packet) : N := match to_bytes_unlimited (set_payload p []) with Ok bs => len bs | _ => 100000 end.
 Definition within_budget (m : N) (req : packet) (o : obs) : bool :=
   negb (panicked o) &&
   match o_resp o with
@@ -395,16 +404,23 @@ Definition within_budget (m : N) (req : packet) (o : obs) : bool :=
     (o_len o <=? m)
     && match block_of OPT_BLOCK2 r with
        | Some b => is_pow2_block (block_size b)
-                   && match block_of OPT_BLOCK2 req with Some cb => block_size b <=? block_size cb | None => true end
+                   && match block_of OPT_BLOCK2 req with
+                      | Some cb => (block_size b <=? block_size cb)
+                                   (* exactly the client's size when it fits with 32 bytes to spare (the response's own
+                                      overhead, Block2 option included, is an upper bound of the application's) *)
+                                   && (if (b_szx cb <=? 6) && (overhead r + block_size cb + 32 <=? m) then block_size b =? block_size cb else true)
+                      | None => true end
        | None => true end
     && match block_of OPT_BLOCK1 r with
        | Some b => is_pow2_block (block_size b)
-                   && match block_of OPT_BLOCK1 req with Some cb => block_size b <=? block_size cb | None => true end
+                   && match block_of OPT_BLOCK1 req with
+                      | Some cb => (block_size b <=? block_size cb)
+                                   && (if (b_szx cb <=? 6) && (overhead req + block_size cb + 32 <=? m) then block_size b =? block_size cb else true)
+                      | None => true end
        | None => true end
   end.
 
 (* the domain of C10: budget between overhead + 28 and 1280; the application's reply has no Block2 of its own *)
-Definition overhead (p : packet) : N := match to_bytes_unlimited (set_payload p []) with Ok bs => len bs | _ => 100000 end.
 Definition in_budget_domain (m : N) (req : packet) (rp : reply) (o : obs) : bool :=
   (m <=? 1280) && (overhead req + 28 <=? m)
   && negb (existsb (fun kv => fst kv =? OPT_BLOCK2) (rp_opts rp))
@@ -525,6 +541,7 @@ Definition classify120 (s : list N) : N :=
 (* mode 0 (expiry one hour): the judged exchange is the last one; it comes after any number of exchanges for
    other keys and must continue the transfer that the first exchanges started: a Block2 follow-up is served from
    the cache (application not consulted), an upload continues on its buffer (body = all blocks).
+   mode 2 (expiry 300 ms, naps of 100 ms with requests on OTHER keys between them): as mode 1 for the last exchange.
    mode 1 (short expiry): the exchange after the Sleep must be treated as fresh: it reaches the application /
    starts from an empty buffer, and the expired entries are gone from the cache (only the new entry remains). *)
 Definition last_obs (os : list obs) : option obs := match rev os with o :: _ => Some o | [] => None end.
@@ -549,8 +566,9 @@ Definition verdict200 (s out : list N) : bool :=
           | None, None => true
           end
         else
-          (* expired: fresh, and reclaimed *)
-          (o_entries o =? 1)
+          (* expired: fresh, and reclaimed (mode 2, short naps with other keys' traffic in between: the judged key's
+             state must have expired although other keys were used in the meantime; the entry count is not observed) *)
+          ((mode =? 2) || (o_entries o =? 1))
           && match block_of OPT_BLOCK2 req, block_of OPT_BLOCK1 req with
              | Some b, _ => o_app o
              | None, Some b => if b_more b then true
